@@ -77,3 +77,49 @@ class Outside:
     q: int = 0
 
 
+
+
+# ---- class graphs for the THR lane (C19); Mk is the marker type whose hook factory parks the thread
+class Mk:
+    pass
+
+
+@attrs.define
+class G1C1:
+    m: Mk
+    x: "G1C2"
+
+
+@attrs.define
+class G1C2:
+    m: Mk
+    y: "G1C3"
+
+
+@attrs.define
+class G1C3:
+    m: Mk
+    back: "list[G1C1]" = attrs.Factory(list)
+
+
+@attrs.define
+class G2D3:
+    m: Mk
+
+
+@attrs.define
+class G2D2:
+    m: Mk
+    c: G2D3
+
+
+@attrs.define
+class G2D1:
+    m: Mk
+    a: G2D2
+    b: G2D3
+    m2: Mk
+
+
+for _c in (G1C1, G1C2, G1C3):
+    attrs.resolve_types(_c, globals(), locals())
